@@ -8,16 +8,23 @@
     the `NoiseModel` objects alive in the program   `heap : ℕ → NoiseVal`  (object identity = index)
     `experiment._noise`                             `ref : ℕ`              (a reference, not a copy)
     `processor._source`                             `src : Params`, `tag : ℕ` (its tag counter)
-    `experiment._input_state` (a `BasicState`)      `input : Option (List ℕ)`
-    `processor._inputs_map`                         `cache : Option (Dist State)`
+    `experiment._input_state`                       `input : Option Inp`  (a plain `BasicState`, or a CUSTOM
+                                                    input: an `SVDistribution` / `StateVector` / polarised
+                                                    `BasicState` object of the user, identified by a number)
+    `processor._inputs_map`                         `cache : Option Cached` (a generated mixture, or the user's
+                                                    own distribution object — the same slot holds both)
   `dirty` is a ghost field (nothing in the code): the held `NoiseModel` object was updated in place
   (`set_value`) and not assigned again since.  `NoiseModel` has no observer, so in that state the code
   keeps the source built from the old values; the documented way to make new values effective is the
   assignment `processor.noise = nm`, which is what the theorems are about.
 
-  Not modelled: custom inputs (`SVDistribution`, polarised `BasicState` — `_has_custom_input`), heralds,
-  `clear_input_and_circuit`, an assignment whose `Source(...)` constructor raises (state after an
-  exception).
+  Custom inputs (`with_input(SVDistribution | StateVector)`, `with_polarized_input` — `_has_custom_input`)
+  bypass the source: the user's object is stored in `_inputs_map` as it is and survives noise assignments;
+  `clear_input_and_circuit` empties both slots.  Heralds only change which `BasicState` reaches
+  `_input_changed_observer` (the harness merges them into `ns`).
+
+  Not modelled: the content of a custom distribution (an opaque identity), an assignment whose
+  `Source(...)` constructor raises (state after an exception).
 -/
 import PercevalModel.Model.C06
 import PercevalModel.Found.SM
@@ -44,13 +51,25 @@ def tagAfterGen (P : Params) : List ℕ → ℕ → ℕ
   | [], t => t
   | n :: ns, t => tagAfterGen P ns (probDistTag P n t)
 
+/-- `experiment._input_state`: a plain Fock state (the source is applied to it) or a custom input (the
+source is bypassed); `c` is the identity of the user's object -/
+inductive Inp where
+  | fock (ns : List ℕ)
+  | custom (c : ℕ)
+deriving DecidableEq
+
+/-- what `processor._inputs_map` holds / `source_distribution` returns -/
+inductive Cached where
+  | gen (d : Dist State)
+  | custom (c : ℕ)
+
 structure Proc where
   heap : ℕ → NoiseVal
   ref : ℕ
   src : Params
   tag : ℕ
-  input : Option (List ℕ)
-  cache : Option (Dist State)
+  input : Option Inp
+  cache : Option Cached
   dirty : Bool
 
 inductive ProcOp where
@@ -60,6 +79,11 @@ inductive ProcOp where
   | assign (id : ℕ)
   /-- `processor.with_input(BasicState(ns))` -/
   | input (ns : List ℕ)
+  /-- `processor.with_input(SVDistribution | StateVector)` / `processor.with_polarized_input(bs)` with the
+  user's object `c` -/
+  | custom (c : ℕ)
+  /-- `processor.clear_input_and_circuit()` -/
+  | clear
   /-- `processor.source_distribution` -/
   | read
   /-- `processor.source.generate_distribution(BasicState(ns), thr)`: a direct use of the source object -/
@@ -75,27 +99,44 @@ def Proc.init (heap : ℕ → NoiseVal) (ref : ℕ) : Proc :=
 
 /-- `_generate_noisy_input`: `self._inputs_map = self._source.generate_distribution(self.input_state)` -/
 def Proc.fill (s : Proc) (ns : List ℕ) : Proc :=
-  { s with cache := some (generate s.src 0 ns s.tag), tag := tagAfterGen s.src ns s.tag }
+  { s with cache := some (.gen (generate s.src 0 ns s.tag)), tag := tagAfterGen s.src ns s.tag }
 
-def procStep (s : Proc) : ProcOp → Proc × Option (Dist State)
+/-- `_has_custom_input` -/
+def Proc.hasCustomInput (s : Proc) : Bool :=
+  match s.input with
+  | some (.custom _) => true
+  | _ => false
+
+def procStep (s : Proc) : ProcOp → Proc × Option Cached
   | .mutate id v =>
     -- no observer fires; every alias of the object sees the new values
     ({ s with heap := fun i => if i = id then v else s.heap i, dirty := s.dirty || decide (id = s.ref) },
       none)
   | .assign id =>
     -- `Experiment.noise.setter` stores the reference and calls `_noise_changed_observer`:
-    --   `self._source = Source.from_noise_model(self.noise)`; `self._inputs_map = None`
-    ({ s with ref := id, src := (s.heap id).params, tag := 0, cache := none, dirty := false }, none)
+    --   `self._source = Source.from_noise_model(self.noise)`;
+    --   `if not self._has_custom_input: self._inputs_map = None`
+    ({ s with ref := id, src := (s.heap id).params, tag := 0,
+              cache := if s.hasCustomInput then s.cache else none, dirty := false }, none)
   | .input ns =>
     -- `_input_changed_observer` → `_generate_noisy_input()` (eagerly)
-    (({ s with input := some ns }).fill ns, none)
+    (({ s with input := some (.fock ns) }).fill ns, none)
+  | .custom c =>
+    -- `_input_changed_observer`: `self._inputs_map = self.input_state` (resp. `SVDistribution(bs)`)
+    ({ s with input := some (.custom c), cache := some (.custom c) }, none)
+  | .clear =>
+    -- `experiment._input_state = None` (the input observer does nothing), then `self._inputs_map = None`
+    ({ s with input := none, cache := none }, none)
   | .read =>
     match s.cache, s.input with
     | some d, _ => (s, some d)
-    | none, some ns => (s.fill ns, some (generate s.src 0 ns s.tag))
+    | none, some (.fock ns) => (s.fill ns, some (.gen (generate s.src 0 ns s.tag)))
+    -- a custom input without its cached object: `_generate_noisy_input` would hand the custom object to the
+    -- source; `Proc.Inv.customKept` shows that no history reaches this state
+    | none, some (.custom _) => (s, none)
     | none, none => (s, none)
   | .useSource ns thr =>
-    ({ s with tag := tagAfterGen s.src ns s.tag }, some (generate s.src thr ns s.tag))
+    ({ s with tag := tagAfterGen s.src ns s.tag }, some (.gen (generate s.src thr ns s.tag)))
   | .other => (s, none)
 
 /-- the state of the processor after a history -/
@@ -103,14 +144,19 @@ def procAfter (heap : ℕ → NoiseVal) (ref : ℕ) (ops : List ProcOp) : Proc :
   SM.exec procStep (Proc.init heap ref) ops
 
 /-- what `processor.source_distribution` returns in a state -/
-def Proc.sourceDistribution (s : Proc) : Option (Dist State) := (procStep s .read).2
+def Proc.sourceDistribution (s : Proc) : Option Cached := (procStep s .read).2
 
 /-- the invariant behind history-independence -/
 structure Proc.Inv (s : Proc) : Prop where
   /-- unless the held object was updated in place and not re-assigned, the source is the one
   `from_noise_model` builds from the *current* values of the held object -/
   synced : s.dirty = false → s.src = (s.heap s.ref).params
-  /-- a cached input distribution was generated by the current source for the current input -/
-  cached : ∀ d, s.cache = some d → ∃ ns t, s.input = some ns ∧ d = generate s.src 0 ns t
+  /-- a cached GENERATED distribution was generated by the current source for the current input, which is a
+  plain Fock state -/
+  cached : ∀ d, s.cache = some (.gen d) → ∃ ns t, s.input = some (.fock ns) ∧ d = generate s.src 0 ns t
+  /-- a cached custom object is the current input -/
+  customCached : ∀ c, s.cache = some (.custom c) → s.input = some (.custom c)
+  /-- a custom input is always in the cache (the source is never asked about it) -/
+  customKept : ∀ c, s.input = some (.custom c) → s.cache = some (.custom c)
 
 end PM.C06
